@@ -47,7 +47,7 @@ func (prop) ID() string    { return "C19" }
 func (prop) Level() string { return "exploration" }
 
 func (prop) Drive(d *core.Driver) error {
-	d.T.Rule = "each case is a generated program or multi-file template assembled from snippets (direct calls, calls through values, closures, defer, go, method calls/values/expressions, returned function values, callbacks, interface assertions, conversions, variables, print) under a random configuration (importer nil / native.Packages / CombinedImporter / custom logging importer / importer returning errors; random subset of 5 supplied package paths; random subset of template globals; AllowGoStmt on/off) with at most one forbidden construct (unsupplied import path in plain/alias/dot/blank/for form, undeclared name incl. names of Scriggo's builtin package and Go names of supplied functions, missing or unexported member, method outside the declared interface, go statement in main/closure/deferred closure/macro/partial/imported file/module package without AllowGoStmt). Forbidden => Build must fail; otherwise the case must build, is run, and every native call seen by the callNative hook must resolve into the allow set and match the call log kept by the supplied functions. distinct_nontrivial counts distinct (rejected probe kind, importer kind) pairs and distinct (legit snippet kind @ placement, class of native-call target) pairs actually executed with at least one hook event"
+	d.T.Rule = "each case is a generated program or multi-file template assembled from snippets (direct calls, calls through values, closures, defer, go, method calls/values/expressions, returned function values, callbacks, interface assertions, conversions, variables, print) under a random configuration (importer nil / native.Packages / CombinedImporter / custom logging importer / importer returning errors; random subset of 5 supplied package paths; random subset of template globals; AllowGoStmt on/off) with at most one forbidden construct (unsupplied import path in plain/alias/dot/blank/for form, undeclared name incl. names of Scriggo's builtin package and Go names of supplied functions, missing or unexported member, method outside the declared interface, go statement in main/closure/deferred closure/macro/partial/imported file/module package without AllowGoStmt). Plus two families enumerated in full in every tier: imports of paths derived from a supplied package whose name differs from its last path element (name, elements, prefixes, suffixes, case variants) in every import form and file role; CombinedImporter chains of 2-4 importers (Packages, custom importers returning package / nil / error, nested chains) with every combination of answers, judged by an executable model of the Importer contract (first importer that returns a package or an error decides: expected error text, expected package variant, shadowed members absent). Forbidden => Build must fail; otherwise the case must build, is run, and every native call seen by the callNative hook must resolve into the allow set and match the call log kept by the supplied functions. distinct_nontrivial counts distinct (rejected probe kind, importer kind) pairs and distinct (legit snippet kind @ placement, class of native-call target) pairs actually executed with at least one hook event"
 	d.T.Assumptions = []string{
 		"the interpreter's helpers for complex arithmetic (internal/compiler.{neg,add,sub,mul,div}Complex, NativeFunction package \"scriggo.complex\") and its reflect.MakeFunc trampolines are implementation of the language, not host functionality",
 		"a method of a value that a supplied function returned, or of a type reachable from supplied declarations through exported fields/results, counts as supplied (property text: methods of supplied types/values)",
